@@ -307,6 +307,23 @@ pub fn serve() {
                     }
                 }
             }
+            "A" => {
+                // parse only: shape of the tree with positions erased
+                let text = blob_str(&mut r).unwrap_or_default();
+                writeln!(w, "B {id}").ok();
+                w.flush().ok();
+                let res = std::panic::catch_unwind(|| match text.parse::<mamba::parse::ast::AST>() {
+                    Ok(ast) => format!("\"v\":\"ok\",\"shape\":{}", esc(&crate::layout::shape(&ast))),
+                    Err(e) => format!("\"v\":\"err\",\"msg\":{}", esc(&e.msg)),
+                });
+                match res {
+                    Ok(s) => s,
+                    Err(_) => {
+                        let (loc, msg) = take_panic();
+                        format!("\"v\":\"panic\",\"loc\":{},\"msg\":{}", esc(&loc), esc(&msg))
+                    }
+                }
+            }
             "S" => {
                 writeln!(w, "B {id}").ok();
                 format!("\"v\":\"status\",\"shim\":{}", shim_present())
